@@ -72,16 +72,17 @@ CLAIMED = {
         "(random methods run eagerly); object aliasing itself is observed by byte equality, not modelled.",
    design="5 (C13)", technique="Coq invariant proofs by induction over operation histories (heap/cache state machine, lazy-field machine) + replay of histories on the real objects"),
  "C18": dict(
-   text="Machine-checked proofs (Coq 8.16.1, closed) about an executable transcription of ProtoGreedySearch/MMDCriticSearch/ProtoDashSearch + Prototypes: weights "
-        "non-negative and summing to one, selected cases distinct, the per-batch/strict-> arg-max equals the dense first arg-max for every batching, the MMDCritic and "
-        "ProtoGreedy objectives equal the documented formulas on the full kernel matrix, ProtoDash starts at the largest column mean, (batch, position) <-> flat index "
-        "translation and label/index consistency of local explanations. The equality of the triangular column-mean tables with dense column means and of the whole "
-        "batched selection with the dense greedy are TESTED (vm_compute) on every generated case, not yet proved. Tied to /repo on every run through the public API "
-        "(indices exact under a margin guard, weights/tables/distances within 1e-4..4e-6, implementation-vs-implementation across batch sizes).",
-   note="Partial proof: colmeans_triangular and end-to-end greedy_batch_invariant unproved (tested per case). Trusted: Coq kernel + vm_compute, hand-written model, harness "
-        "including the float64 reference used only for guards, kernel values rounded to 2^-24 and eps 17*2^-24, TF argmax/inv semantics, float32 covered by tolerances and "
-        "the cond <= 60 guard.",
-   design="5 (C18)", technique="Coq invariants over the greedy loop + generic first-arg-max batching lemma + differential correspondence with margin/conditioning guards"),
+   text="Machine-checked proofs (Coq 8.16.1, all closed under the global context) about an executable transcription of ProtoGreedySearch / MMDCriticSearch / "
+        "ProtoDashSearch + Prototypes: for a symmetric kernel matrix and EVERY batch size, the triangularly accumulated padded tables equal the dense column means / "
+        "diagonal, and the whole batched greedy selection (padded masks, incremental selection kernel, per-batch arg-max, strict > across batches) equals the dense greedy "
+        "with first-index tie-breaking for any objective of the family (hence batch-size independent for the three methods); selected cases distinct; weights non-negative "
+        "summing to one; MMDCritic / ProtoGreedy objectives equal the documented formulas on the full kernel matrix; ProtoDash starts at the largest column mean; (batch, "
+        "position) <-> flat index translation and label/index consistency of local explanations. Tied to /repo on every run through the public API (default and custom "
+        "kernel_fn, projections, 4 distances; indices exact under a margin guard, weights / tables / distances within 1e-4..4e-6, implementation-vs-implementation across batch sizes).",
+   note="Trusted: Coq kernel + vm_compute; the hand-written model (validated by correspondence only); harness including the float64 dense reference used only for near-tie / "
+        "conditioning guards; kernel values rounded to 2^-24 and eps = 17*2^-24; TF argmax / inv semantics; float32 covered by tolerances and the cond <= 60 guard. Not proved: "
+        "k-nearest correctness of the KNN over prototypes (C16); batch-independence of the weights is covered by correspondence only; exact (SLSQP) ProtoDash weight update not modelled.",
+   design="5 (C18)", technique="Coq loop invariants (triangular traversal on an abstract block decomposition; greedy loop with table invariants) + generic first-arg-max batching lemma + differential correspondence with margin / conditioning guards"),
  "C01": dict(
    text="Machine-checked proof (Coq 8.16.1, closed) that executable transcriptions of Saliency/GradientInput/GradientStatistic.explain (literal batching and while loop, "
         "online statistics, channel harmonisation) equal the per-sample reference definitions for every gradient function, batch size, nb_samples, N and shape, and "
